@@ -9,6 +9,8 @@ is used to judge rich.cells.  Clauses:
   c13.set_cell_size        exactly n cells, a prefix of the original followed by spaces
   c13.chop_cells           pieces concatenate to the original; every piece fits (first one with the position offset)
   c13.adjust_line_length   exact length when padding / cropping; characters and styles a prefix; pad carries the style
+  c13.split_and_crop_lines.new_lines  include_new_lines=True: each line is the shaped line plus exactly one new-line segment, also
+                            between consecutive blank lines; earlier lines are not changed by later ones
   c13.split_and_crop_lines every line exactly `length` cells (pad) / at most (no pad); characters and styles
                            unchanged; padding carries the requested style
   c13.set_shape            max(len(lines), height) lines of exactly `width` cells
@@ -195,6 +197,25 @@ def run(tier: str = "quick", seed: int = 0) -> Dict[str, Any]:
             fail("c13.split_and_crop_lines", f"split_and_crop_lines(..., {length}, pad={pad}): wrong length, characters or pad style",
                  f"{[(s.text, str(s.style), s.is_control) for s in segs]}|{length}|{pad}", {"segments": [[s.text, str(s.style), s.is_control] for s in segs], "length": length, "pad": pad},
                  "lines of the requested length, unchanged characters, padding in the requested style", [[[s.text, str(s.style)] for s in ln] for ln in lines])
+        # the same call with its public default include_new_lines=True, also on the sequence framed by blank lines: every
+        # line is the line of the call above followed by exactly one new-line segment, and a line already produced is not
+        # changed by producing the next ones (the lines are collected first and compared afterwards)
+        for segs2 in (list(segs), [Segment("\n\n")] + list(segs) + [Segment("\n"), Segment("\n\n")]):
+            hit("c13.split_and_crop_lines.new_lines")
+            plain2 = [list(ln) for ln in Segment.split_and_crop_lines(list(segs2), length, style=pad_style, pad=pad, include_new_lines=False)]
+            with_nl = list(Segment.split_and_crop_lines(list(segs2), length, style=pad_style, pad=pad, include_new_lines=True))
+            ends_nl = bool(segs2) and not segs2[-1].is_control and segs2[-1].text.endswith("\n")
+            ok2 = len(with_nl) == len(plain2)
+            if ok2:
+                for idx2, (a2, b2) in enumerate(zip(with_nl, plain2)):
+                    last2 = idx2 == len(plain2) - 1
+                    want2 = stream(b2) + ([] if (last2 and not ends_nl) else [("\n", None, False)])
+                    if stream(a2) != want2:
+                        ok2 = False
+            if not ok2:
+                fail("c13.split_and_crop_lines.new_lines", f"split_and_crop_lines(..., {length}, pad={pad}, include_new_lines=True): a line is not the shaped line plus one new line",
+                     f"{[(s.text, str(s.style), s.is_control) for s in segs2]}|{length}|{pad}", {"segments": [[s.text, str(s.style), s.is_control] for s in segs2], "length": length, "pad": pad},
+                     [[[s.text, str(s.style)] for s in ln] for ln in plain2], [[[s.text, str(s.style)] for s in ln] for ln in with_nl])
         # set_shape
         hit("c13.set_shape")
         height = rng.choice([None, 0, 1, len(lines), len(lines) + 2])
